@@ -318,7 +318,7 @@ def race(ctx, desc):
 
     with shims.patched((deep.task, 'ThreadPoolExecutor', shims.SchedPool), (deep.task, 'threading', shims.ThreadingShim()),
                        (deep.utils, 'Event', shims.SchedEvent), (deep.utils, 'Thread', shims.SchedThread),
-                       (ATT, 'threading', shims.ThreadingShim())), rig.VirtualClock():
+                       (ATT, 'threading', shims.ThreadingShim()), (__import__('deep.config.tracepoint_config', fromlist=['x']), 'threading', shims.ThreadingShim())), rig.VirtualClock():
         if 'schedule' in desc:
             sched, st = S.run_one(make, desc['schedule'])
             ctx.traces += 1
